@@ -115,6 +115,9 @@ func (its *PushPullHandler) Start() <-chan *model.PushPullPack {
 }
 
 func (its *PushPullHandler) validatePushPullPack() errors.OrdaError {
+	if its.gotPushPullPack.GetCheckPoint() == nil {
+		return errors.PushPullAbortionOfClient.New(its.ctx.L(), "push-pull pack without a checkpoint")
+	}
 	if its.isReadOnly && its.gotOption.HasCreateBit() {
 		return errors.PushPullAbortionOfClient.New(its.ctx.L(), "invalid push-pull option:"+its.gotOption.String())
 	}
